@@ -43,13 +43,30 @@ def _same(a, b):
     return a == b
 
 
+# non-finite samples: the model works over Z, so NaN / +inf / -inf travel as sentinel integers far above every
+# threshold used here.  An epoch holding one (together with at least one finite sample) has a criterion that is not
+# strictly below any threshold - NumPy: max / ptp propagate NaN and every comparison with NaN is False - so the model
+# rejects it for the same reason the code must; a forwarded non-finite sample is decoded back to its sentinel.
+NAN_CODE, PINF_CODE, NINF_CODE = 900000001, 900000002, -900000002
+_NONFINITE = {NAN_CODE: float('nan'), PINF_CODE: float('inf'), NINF_CODE: float('-inf')}
+
+
+def _enc_val(v):
+    v = float(v)
+    if v != v:
+        return NAN_CODE
+    if v in (float('inf'), float('-inf')):
+        return PINF_CODE if v > 0 else NINF_CODE
+    return int(v)
+
+
 def _md_obj(k, rich):
     return {'id': k, 'tag': MTAGS[k % 8], 'n': [k, str(k), (k,)], 'z': 0} if rich else {'id': k}
 
 
 def _mk(b):
     from psiaudio.pipeline import PipelineData
-    d = np.array(b['vals'], dtype=float).reshape(b['shape'])
+    d = np.array([_NONFINITE.get(v, v) for v in b['vals']], dtype=float).reshape(b['shape'])
     if b.get('dt'):
         d = d.astype(b['dt'])
     if not b['ann']:
@@ -76,7 +93,7 @@ def _obs_fwd(r, rich=False):
     if not isinstance(r, np.ndarray):
         raise TypeError(f'valid_target received {type(r).__name__}')
     if not isinstance(r, PipelineData):
-        return {'ann': False, 'shape': [int(v) for v in r.shape], 'vals': [int(v) for v in np.asarray(r).ravel()],
+        return {'ann': False, 'shape': [int(v) for v in r.shape], 'vals': [_enc_val(v) for v in np.asarray(r).ravel()],
                 'dtype': str(r.dtype)}
     fs = Fraction(float(r.fs))
     ch = r.channel
@@ -89,7 +106,7 @@ def _obs_fwd(r, rich=False):
         core = {k: v for k, v in m.items() if k != 'reject_threshold'} if isinstance(m, dict) else None
         ok = core is not None and type(core.get('id')) is int and _same(core, _md_obj(core['id'], rich))
         ids.append(core['id'] if ok else -999)
-    return {'ann': True, 'shape': [int(v) for v in r.shape], 'vals': [int(v) for v in np.asarray(r).ravel()],
+    return {'ann': True, 'shape': [int(v) for v in r.shape], 'vals': [_enc_val(v) for v in np.asarray(r).ravel()],
             's0': int(r.s0), 'fs': [fs.numerator, fs.denominator], 'ch': ch, 'md': ids, 'dtype': str(r.dtype),
             'rth': [m.get('reject_threshold') if isinstance(m, dict) else None for m in md]}
 
@@ -393,6 +410,27 @@ def cases(tier, rng):
         if ann:
             b.update(s0=3, fs=[45, 1], ch=[70], md=[200 + q for q in range(E)])
         yield {'mode': mode, 'thr': ['c', t], 'batches': [b]}
+    # non-finite samples (NaN, +inf, -inf) next to finite ones: such an epoch is never under the threshold
+    for _ in range(160 if quick else 1500):
+        mode = rng.choice(['abs', 'ptp'])
+        nb = rng.randint(1, 3)
+        ths = [rng.choice([10, 7, 25, 0]) for _ in range(nb)]
+        ann = rng.random() < 0.6
+        bs = []
+        for k in range(nb):
+            E, T = rng.randint(1, 4), rng.randint(2, 5)
+            t = ths[k]
+            b = _batch_from(mode, [rng.choice([t - 1, t, t + 1, 0, 1]) for _ in range(E)], T, rng, ann, mdbase=10 * k,
+                            variant=rng.randint(0, 7))
+            for e in range(E):
+                if rng.random() < 0.5:
+                    code = rng.choice([NAN_CODE, NAN_CODE, PINF_CODE, NINF_CODE] if mode == 'abs' else [NAN_CODE])
+                    b['vals'][e * T + rng.randrange(T)] = code      # T >= 2: at least one finite sample stays
+            bs.append(b)
+        c = {'mode': mode, 'thr': (['c', ths[0]] if nb == 1 else ['f', ths]), 'batches': bs}
+        if rng.random() < 0.25:
+            c['status'] = False
+        yield c
     # refused input, alone and inside a sequence (the coroutine ends with the exception)
     yield from _audit_cases(tier, rng)
     good = _batch_from('abs', [9, 11], 3, rng, True)
